@@ -3212,6 +3212,18 @@ impl<'a> Visitor<'a, '_, Error> for JSONValidator<'a> {
 
         jv.state.generic_rules = self.state.generic_rules.clone();
         jv.state.eval_generic_rule = Some(entry.name.ident);
+        // The arguments of this reference were appended to those of earlier
+        // references to the same rule; the parameters are bound to the last
+        // ones (as in the CBOR validator)
+        if let Some(rule) = jv
+          .state
+          .generic_rules
+          .iter_mut()
+          .find(|rule| rule.name == entry.name.ident)
+        {
+          let current_args_start = rule.args.len().saturating_sub(rule.params.len());
+          rule.args = rule.args[current_args_start..].to_vec();
+        }
         jv.state.is_multi_type_choice = self.state.is_multi_type_choice;
         jv.visit_rule(rule)?;
 
